@@ -417,9 +417,10 @@ def inject(schema, document):
                     d2 = with_var(d2, defidx, VarDef(vn, vt))
                     if d2 is not None:
                         yield "5.8.5", vsite + "|" + vt, d2
-                    if vt in ("Int", "String"):
+                    if vt in ("Int", "String", "[Int]"):
+                        # (a default excuses the *outer* nullability of the variable only: `[Int] = [1]` still does not fit `[Int!]`)
                         d3 = rebuild(args[:ai] + (replace(a, value=value_replace(a.value, vpath, Var(vn))),) + args[ai + 1:])
-                        d3 = with_var(d3, defidx, VarDef(vn, vt, IntV("1") if vt == "Int" else StrV("d")))
+                        d3 = with_var(d3, defidx, VarDef(vn, vt, IntV("1") if vt == "Int" else StrV("d") if vt == "String" else ListV((IntV("1"),))))
                         if d3 is not None:
                             yield "5.8.5", vsite + "|" + vt + "-with-default", d3
                     if not vt.endswith("!"):
